@@ -694,9 +694,16 @@ CHEAP = ('digits', 'terms-space', 'terms-comma', 'string', 'open-string', 'ident
          'comment-stars', 'backslashes', 'semicolons', 'dashes', 'hashes', 'pipes', 'at', 'newlines', 'open-url', 'open-string-nl')
 
 
+QUADRATIC = ('imports', 'variables-many', 'namespaces', 'imports-media', 'variables')
+
+
 def long_cases(tier):
     for name in sorted(LONG):
         for n in LONG_SIZES[tier]:
+            if n > 3000 and name in QUADRATIC:
+                # quadratic by construction (every new rule looks at all rules before it): 3000 takes 10-30 s of CPU, 5000 would come
+                # close to what the watchdog calls a hang
+                continue
             yield {'family': name, 'n': n}
         if name in CHEAP:
             # e.g. Python refuses to convert integers of more than 4300 digits
@@ -880,12 +887,17 @@ def own_words(prop):
 def validation_cases(tier):
     words, props = validation_words(), validation_props()
     for p in props:
+        own = own_words(p)
         if tier == 'thorough':
             ws = words
+            for w in own + TOKENS:
+                for sep in (', ', ' / ', ','):
+                    yield {'prop': p, 'words': [w], 'sep': sep, 'tail': ' x-y', 'ctx': 'style'}
         else:
             # a few repeated words that most tables name in more than one part, and some of the property's own
-            own = own_words(p)
             ws = sorted({'inherit', 'none', 'normal', 'center', 'red', 'auto', '1px', '0'} | set(own[:: max(1, len(own) // 6)]))
+            for w in own[:: max(1, len(own) // 4)]:
+                yield {'prop': p, 'words': [w], 'sep': ', ', 'tail': ' x-y', 'ctx': 'style'}
         for w in ws:
             yield {'prop': p, 'words': [w], 'sep': ' ', 'tail': ' x-y', 'ctx': 'style'}
         # one long word
